@@ -291,7 +291,9 @@ def main(argv=None):
     if broken:
         for b in broken:
             print("CHECKER-BROKEN:", b)
-        return 3
+        if not (violations and (refuted or failed)):
+            return 3
+        # failed obligations stand on their own even when the run-time part could not be completed
     if violations:
         for path, what, suffix in violations[:3]:
             print(f"# {what[:400]}")
